@@ -150,6 +150,13 @@ fn call(c: &Case) -> Option<(Vec<Val>, u32)> {
     let int = |i: usize| -> i128 { match &a[i] { Val::I(v) => *v, _ => panic!("harness: bad arg") } };
     let text = |i: usize| -> String { match &a[i] { Val::S(b) => String::from_utf8(b.clone()).expect("harness: utf8"), _ => panic!("harness: bad arg") } };
     let op = c.op.as_str();
+    // crate-internal helper routines through the cfg hook: all arguments and results are 64-bit words (G tokens)
+    if let Some(name) = op.strip_prefix("hk_") {
+        let words: Vec<u64> = a.iter().map(|v| match v { Val::G(w) => *w, _ => panic!("harness: bad arg") }).collect();
+        let mode = c.mode.to_digit(10).unwrap_or(0);
+        let r = decmathlib_rs::verif_hooks::helper(name, &words, mode, &mut st)?;
+        return Some((r.into_iter().map(Val::G).collect(), st));
+    }
     // the 40 decimal -> integer conversions
     if op.starts_with("convert_to_") {
         let x = d(0);
